@@ -220,6 +220,12 @@ def r_elem(ty, depth=0):
     raise Skip("element type %s" % ty)
 
 
+def resolver_name(src, mn, default):
+    """name of the getter documented as resolving offset field `mn` (`/// ... [`mn`][Self::mn].` + `pub fn NAME(`)"""
+    m = re.search(r"///[^\n]*\[Self::%s\]\.\s*\n\s*pub fn (\w+)\(" % mn, src)
+    return m.group(1) if m else default
+
+
 def read_table(name, src, impl_body, read_body):
     # 1. marker ranges: order, names, sizes
     marker = []
@@ -314,7 +320,7 @@ def read_table(name, src, impl_body, read_body):
                 gm = re.search(r"pub fn %s\(&self\) -> (Option<)?(Nullable<)?%s>*\s*\{" % (mn, ty), src)
                 if not gm:
                     raise Skip("offset getter for %s not found" % mn)
-                out.append(("off", re.sub(r"_offset$", "", mn), OFFW[ty], gate, bool(gm.group(2))))
+                out.append(("off", resolver_name(src, mn, re.sub(r"_offset$", "", mn)), OFFW[ty], gate, bool(gm.group(2))))
             else:
                 w = width_of(ty)
                 if w is None:
@@ -331,9 +337,7 @@ def read_table(name, src, impl_body, read_body):
                 if not gm:
                     raise Skip("offset array getter for %s not found" % mn)
                 elem = [("off", "item", OFFW[et], None, bool(gm.group(2)))]
-                rm = re.search(r"pub fn (\w+)\(&self\) -> (?:Option<)?ArrayOf(?:Nullable)?Offsets<[^{]*\{[^}]*self\.%s\(\)" % mn, src)
-                if rm:
-                    aname = rm.group(1)
+                aname = resolver_name(src, mn, mn)
             else:
                 elem = r_elem(et)
             out.append(("array", aname, gate, fld[4], elem))
@@ -384,7 +388,7 @@ W_STRUCTS = {}
 W_BODIES = {}
 W_TABLES = {}
 
-WRITE_UNSUPPORTED = [r"adjust_offsets", r"compile_variation_data", r"pad_to_2byte", r"^match self", r"write_slice", r"let val = \*self",
+WRITE_UNSUPPORTED = [r"adjust_offsets", r"compile_variation_data", r"\(self\.compile_\w+\(\)\)\.write_into", r"pad_to_2byte", r"^match self", r"write_slice", r"let val = \*self",
                      r"_padding"]
 
 
@@ -679,6 +683,27 @@ def main():
                 ";\n   ".join('("%s", R_%s, W_%s)' % (n, n, n) for n, _, _ in pairs) + "].\n\n")
         o.write("Definition skipped : list (string * string) :=\n  [" +
                 ";\n   ".join('("%s", "%s")' % (n, why.replace('"', "'")) for n, why in skipped) + "].\n")
+    # diagnostic: arrays whose read-side count field is not computed by the writer from that very array
+    diag = []
+    for name, r, w in pairs:
+        if len(r) != len(w):
+            diag.append("%s: field count differs (read %d, write %d)" % (name, len(r), len(w)))
+            continue
+        idx = {f[1]: i for i, f in enumerate(r)}
+        for i, f in enumerate(r):
+            if f[0] == "array" and f[3][0] == "CField":
+                cf = f[3][1]
+                j = idx.get(cf)
+                wf = w[j] if j is not None else None
+                comp = wf[4] if (wf is not None and wf[0] == "scalar") else None
+                warr = w[i][1]
+                if not (comp and comp[0] == "LenOf" and comp[1] == warr):
+                    diag.append("%s.%s counts `%s` on the read side; writer: %s" % (name, cf, f[1], ccomp(comp) if comp else "?"))
+    with open(OUT, "a") as o:
+        o.write("\n(* count fields the writer does not compute from the array the reader sizes with them:\n   " + "\n   ".join(diag) + " *)\n")
+    print("  stored / shared count fields: %d" % len(diag))
+    for d in diag:
+        print("    " + d)
     hist = Counter(re.sub(r"`.*`|:.*", "", why) for _, why in skipped)
     print("c04_extract: %d pairs, %d skipped" % (len(pairs), len(skipped)))
     for k, v in hist.most_common():
